@@ -47,6 +47,18 @@ def check(prop, tier, seed):
             else:
                 hs.append(dict(id=base + i + 1, dir="in", ty=rnd.choice(["1", "D", "0", "ALL", "d", "v"]), accept=rnd.random() < 0.7, when="late", mutate=False))
         confs.append(dict(handlers=hs, saveFailAt=rnd.choice([0, 0, 0, 4]), late=True))
+    # the second lifetime of a session object: the peer logs out and on again, then the traffic goes on (handlers that refuse
+    # nothing outbound, or no application handlers at all: what is judged is that the session's own handlers are all still there)
+    relog = []
+    for i in range(4 if quick else 40):
+        hs = []
+        for j in range(rnd.choice([0, 0, 1, 3])):
+            if rnd.random() < 0.5:
+                hs.append(dict(id=j + 1, dir="out", ty=rnd.choice(["ALL", "V", "0", "5", "A"]), accept=True, when=rnd.choice(["pre", "post"]), mutate=False))
+            else:
+                hs.append(dict(id=j + 1, dir="in", ty=rnd.choice(["ALL", "1", "D", "5", "A"]), accept=rnd.random() < 0.7, when="post", mutate=False))
+        relog.append(dict(handlers=hs, saveFailAt=0, relogon=True))
+    confs += relog
     scns = []
     for i, c in enumerate(confs):
         steps = [dict(a="send", ty="V"), dict(a="recv", ty="1"), dict(a="send", ty="V"), dict(a="recv", ty="D"),
@@ -65,6 +77,10 @@ def check(prop, tier, seed):
                      dict(a="send", ty="V"), dict(a="recv", ty="1"), dict(a="recv", ty="D"), dict(a="recv", ty="0"), dict(a="send", ty="V"),
                      dict(a="recv", ty="d"), dict(a="recv", ty="v"), dict(a="recv", ty="D")]
             late_at = 4
+        if c.get("relogon"):
+            steps = [dict(a="send", ty="V"), dict(a="recv", ty="1"), dict(a="recv", ty="5"), dict(a="recv", ty="A"), dict(a="send", ty="V"),
+                     dict(a="recv", ty="1"), dict(a="recv", ty="D"), dict(a="send", ty="V"), dict(a="recv", ty="2"), dict(a="recv", ty="5"), dict(a="recv", ty="A"),
+                     dict(a="send", ty="V"), dict(a="recv", ty="1")]
         scns.append(dict(id="d%d" % i, role="acceptor" if i % 2 == 0 else "initiator", handlers=c["handlers"],
                          saveFailAt=c["saveFailAt"], steps=steps, lateAt=late_at))
     traces = sc.run_driver(run, binp, scns, "dispatch", testname="TestDispatch")
